@@ -113,6 +113,7 @@ def case_hostile(seed, out, spec, wd, idx):
     def on_hit(ev, frame, stack, new):
         st['hit'] += 1
         if capture:
+            st.setdefault('stack', stack)   # the frame as it is when the deferred snapshot is opened (arguments only)
             return
         judge(new, ids, stack, watches, probs, st)
 
@@ -126,7 +127,7 @@ def case_hostile(seed, out, spec, wd, idx):
     if capture:
         # deferred snapshots are delivered when the invocation ends: judge what was pushed over the whole run
         recs = case.rig.push.pushed
-        judge_capture(recs, ids, placement, probs)
+        judge_capture(recs, ids, placement, probs, st.get('stack'))
         st['snaps'] = [r_.snapshot for r_ in recs]
         out.count('capture_cases')
     elif st['hit'] == 0:
@@ -182,11 +183,15 @@ def judge(new, ids, stack, watches, probs, st):
         convert_ok(s, probs)
 
 
-def judge_capture(recs, ids, placement, probs):
+def judge_capture(recs, ids, placement, probs, stack=None):
     if len(recs) != 1:
         probs.add('totality:snapshot-lost', 'capture tracepoint is due once, %d snapshots delivered' % len(recs))
         return
     s = recs[0].snapshot
+    if stack is not None:
+        # the captured result is added to the snapshot, it must not replace or alter the frame's own variables
+        snapcheck.check_frame_vars(s, stack, 'single_frame', {'max_str': snapcheck.default_limits()['max_str'],
+                                                              'max_coll': None}, probs, strict_children=None)
     cap = [w for w in s.watches if w.source == 'CAPTURE']
     if len(cap) < 1:
         probs.add('totality:capture-lost', 'deferred snapshot has no captured %s' % placement)
